@@ -175,6 +175,8 @@ class Run:
             solve.solve_all(open_obs, timeout_s=4 * timeout, jobs=4)
         self.solver_time = time.time() - t
         self.groups = solve.group(self.obligations)
+        if "F3" in self.lemmas:
+            self.lemma_f3()
         for extra in self.prop.get("extra", []):
             extra(self)
         self.decide()
@@ -279,6 +281,24 @@ class Run:
             path = self.write_replay(rep)
             self.violations.append({"obligations": rep["obligations"], "replay": path, "reproduced": True})
         return res
+
+    def lemma_f3(self):
+        """The floating-point lemma the VCs of this run rely on is established in this run (pyvc/fplemmas.py)."""
+        from . import fplemmas
+        r = fplemmas.f3_cells()
+        neg = fplemmas.f3_cells(claim="stored")
+        smp = fplemmas.f3_sample(20000 if self.tier == "quick" else 2000000, seed=self.seed + 1)
+        self.extra_cov.setdefault("lemmas", []).append(
+            f"F3 fromtimestamp((T.timestamp()*1000000)/1000000) == T for every whole-millisecond instant 1970..2100: binade-split exact "
+            f"rounding in linear arithmetic, {r.get('cells')} cells: {'proved' if r['ok'] else 'FAILED ' + str(r)} ({r['time_s']} s); negative control "
+            f"('the stored float equals T') {'refuted as it must be' if not neg['ok'] else 'NOT refuted'}; CPython on {smp.get('points')} instants "
+            f"(random + next to every binade boundary): {'agrees' if smp['ok'] else 'DISAGREES ' + smp.get('err', '')}")
+        good = r["ok"] and not neg["ok"] and smp["ok"]
+        self.extra_cov["obligations"] = self.extra_cov.get("obligations", 0) + 1
+        self.extra_cov["discharged"] = self.extra_cov.get("discharged", 0) + (1 if good else 0)
+        self.extra_cov.setdefault("ledger", {})[f"{self.pid}/lemma:F3"] = r["time_s"]
+        if not good:
+            self.undecided.append({"obligations": [f"{self.pid}/lemma:F3"], "why": "floating-point lemma F3 not established in this run"})
 
     def transform_mode(self, mode, n, what):
         """Reference check of a transform on the real function (bounded): pyvc/transform_rt.py."""
